@@ -56,6 +56,42 @@ fn collect(v: &Val, path: &mut Path, refs: &mut Vec<Path>, ints: &mut Vec<Path>)
         _ => {}
     }
 }
+/// every value position of an object, the object's whole value (empty path) included
+fn collect_positions(v: &Val, path: &mut Path, out: &mut Vec<Path>) {
+    out.push(path.clone());
+    match v {
+        Val::Array(a) => {
+            for (i, e) in a.iter().enumerate() {
+                path.push(PathElem::Index(i));
+                collect_positions(e, path, out);
+                path.pop();
+            }
+        }
+        Val::Dict(d) | Val::Stream(d, _) => {
+            for (k, e) in d {
+                path.push(PathElem::Key(k.clone()));
+                collect_positions(e, path, out);
+                path.pop();
+            }
+        }
+        _ => {}
+    }
+}
+fn get_at<'a>(v: &'a Val, path: &[PathElem]) -> Option<&'a Val> {
+    if path.is_empty() {
+        return Some(v);
+    }
+    match (&path[0], v) {
+        (PathElem::Index(i), Val::Array(a)) => a.get(*i).and_then(|e| get_at(e, &path[1..])),
+        (PathElem::Key(k), Val::Dict(d)) | (PathElem::Key(k), Val::Stream(d, _)) => d.iter().find(|(kk, _)| kk == k).and_then(|(_, e)| get_at(e, &path[1..])),
+        _ => None,
+    }
+}
+/// object numbers the indirection faults add to the document
+const SELF_REF_OBJ: u64 = 900; // `900 0 obj 900 0 R endobj`
+const CYCLE_A: u64 = 901; // 901 -> 902 -> 901
+const CYCLE_B: u64 = 902;
+const EXTERNALISED: u64 = 903; // holds the value that used to be direct
 fn set_at(v: &mut Val, path: &[PathElem], new: Val) {
     if path.is_empty() {
         *v = new;
@@ -143,8 +179,21 @@ fn apply(objs: &[(u64, Val)], muts: &[Mutation]) -> Vec<(u64, Val)> {
     let mut o = objs.to_vec();
     for m in muts {
         let e = o.iter_mut().find(|(n, _)| *n == m.obj).unwrap();
+        let old = get_at(&e.1, &m.path).cloned();
+        // a stream cannot be a direct value: at the top level only the dictionary of a stream is replaced
         set_at(&mut e.1, &m.path, m.new.clone());
+        match m.new {
+            Val::Ref(SELF_REF_OBJ, _) => o.push((SELF_REF_OBJ, Val::Ref(SELF_REF_OBJ, 0))),
+            Val::Ref(CYCLE_A, _) => {
+                o.push((CYCLE_A, Val::Ref(CYCLE_B, 0)));
+                o.push((CYCLE_B, Val::Ref(CYCLE_A, 0)));
+            }
+            Val::Ref(EXTERNALISED, _) => o.push((EXTERNALISED, old.unwrap_or(Val::Null))),
+            _ => {}
+        }
     }
+    o.sort_by_key(|(n, _)| *n);
+    o.dedup_by_key(|(n, _)| *n);
     o
 }
 
@@ -291,6 +340,69 @@ pub fn special_cases() -> Vec<(String, Vec<u8>)> {
         // keep startxref pointing at the stream object (text before it is unchanged)
         v.push((name.to_string(), s2.into_bytes()));
     }
+    // xref stream field widths: the full product over {0,1,2,3,4,8,9} with and without a huge /Index count
+    for w0 in [0usize, 1, 2, 3, 4, 8, 9] {
+        for w1 in [0usize, 1, 2, 3, 4, 8, 9] {
+            for w2 in [0usize, 1, 2, 3, 4, 8, 9] {
+                for huge_index in [false, true] {
+                    let mut fb = FileBuilder::new(b"");
+                    basic(&mut fb);
+                    fb.finish_stream(&[("Root", Val::r(1))], &XrefStreamOpts::new(3));
+                    let s = String::from_utf8_lossy(&fb.bytes()).to_string();
+                    let mut s2 = s.replace("/W [1 1 1]", &format!("/W [{} {} {}]", w0, w1, w2));
+                    if huge_index {
+                        s2 = s2.replace("/W [", "/Index [0 2147483647] /W [");
+                    }
+                    v.push((format!("xref-W-{}-{}-{}{}", w0, w1, w2, if huge_index { "-Index-huge" } else { "" }), s2.into_bytes()));
+                }
+            }
+        }
+    }
+    // 8-byte offsets near 2^64 in an xref stream, with and without bytes before the header (offsets are header-relative)
+    for prefix in [&b""[..], &b"junk before the header\n"[..]] {
+        for (name, off) in [("2^64-1", u64::MAX), ("2^63", 1u64 << 63), ("2^63-1", (1u64 << 63) - 1)] {
+            let mut fb = FileBuilder::new(prefix);
+            basic(&mut fb);
+            fb.add(3, 0, &Val::Int(3));
+            let mut o = XrefStreamOpts::new(4);
+            o.w = Some([1, 8, 2]);
+            fb.finish_stream(&[("Root", Val::r(1))], &o);
+            let mut bytes = fb.bytes();
+            // patch the entry of object 3: find its 8-byte offset field by value
+            if let Ok(doc) = crate::refread::RefDoc::open(&bytes) {
+                if let Some(crate::refread::XEntry::InUse { off: o3, .. }) = doc.xref.get(&3) {
+                    let pat = (*o3 as u64).to_be_bytes();
+                    if let Some(p) = find_last(&bytes, &pat) {
+                        bytes[p..p + 8].copy_from_slice(&off.to_be_bytes());
+                    }
+                }
+            }
+            v.push((format!("xref-offset-{}{}", name, if prefix.is_empty() { "" } else { "-prefixed" }), bytes));
+        }
+    }
+    // object stream header numbers near the integer limits
+    for (name, first, pair) in [("objstm-First-2^63-1", "9223372036854775807", "5 0"), ("objstm-offset-2^63-1", "4", "5 9223372036854775807"), ("objstm-offset-2^64-1", "4", "5 18446744073709551615"), ("objstm-First+offset-overflow", "9223372036854775800", "5 9223372036854775800")] {
+        let mut fb = FileBuilder::new(b"");
+        basic(&mut fb);
+        let data = format!("{}\n<< /In 1 >>", pair).into_bytes();
+        fb.add_raw(8, 0, format!("<< /Type /ObjStm /N 1 /First {} /Length {} >>\nstream\n{}\nendstream", first, data.len(), String::from_utf8_lossy(&data)).as_bytes());
+        fb.section.insert(5, Entry::Compressed { stm: 8, idx: 0 });
+        fb.size = 9;
+        fb.finish_stream(&[("Root", Val::r(1))], &XrefStreamOpts::new(9));
+        v.push((name.to_string(), fb.bytes()));
+    }
+    // page tree whose subtree counts add up beyond 32 bits
+    {
+        let mut fb = FileBuilder::new(b"");
+        fb.add(1, 0, &cat);
+        fb.add(2, 0, &Val::dict(vec![("Type", Val::name("Pages")), ("Kids", Val::Array(vec![Val::r(4), Val::r(5), Val::r(6), Val::r(3)])), ("Count", Val::Int(2147483647))]));
+        fb.add(3, 0, &Val::dict(vec![("Type", Val::name("Page")), ("Parent", Val::r(2)), ("MediaBox", Val::ints(&[0, 0, 10, 10]))]));
+        for nr in [4u64, 5, 6] {
+            fb.add(nr, 0, &Val::dict(vec![("Type", Val::name("Pages")), ("Parent", Val::r(2)), ("Kids", Val::Array(vec![])), ("Count", Val::Int(2147483647))]));
+        }
+        fb.finish_table(&[("Root", Val::r(1))], Split::Runs);
+        v.push(("page-tree-counts-overflow-u32".into(), fb.bytes()));
+    }
     // classic table oddities
     for (name, from, to) in [("table-count-huge", "0 3\n", "0 4294967295\n"), ("table-start-huge", "0 3\n", "4294967295 3\n"), ("table-offset-huge", "0000000009 00000 n", "9999999999 00000 n"), ("trailer-Size-negative", "/Size 3", "/Size -1"), ("trailer-Size-2^64", "/Size 3", "/Size 18446744073709551615"), ("trailer-Root-self", "/Root 1 0 R", "/Root 2 0 R"), ("startxref-huge", "startxref\n", "startxref\n99999999999999999999")] {
         let mut fb = FileBuilder::new(b"");
@@ -315,6 +427,7 @@ pub fn run(tier: Tier, _seed: u64, tally: &mut Tally) -> CheckMeta {
     let nbases = if tier.thorough() { 4 } else { 3 };
     let mut n_ref_fields = 0;
     let mut n_int_fields = 0;
+    let mut n_positions = 0;
     for base in 0..nbases {
         let objs = base_objects(base);
         // unmutated base must walk cleanly
@@ -346,6 +459,29 @@ pub fn run(tier: Tier, _seed: u64, tally: &mut Tally) -> CheckMeta {
             for p in &ints {
                 for (name, val) in boundary_numbers() {
                     muts.push(Mutation { obj: *nr, path: p.clone(), new: val.clone(), label: format!("number:{}{}={}", obj_kind(*nr), field_s(p), name) });
+                }
+            }
+            // indirection faults: every value position (the whole object included) replaced by a reference to an object that is
+            // nothing but a reference to itself, to a two-object reference cycle, to the containing object, or to a new object
+            // holding the old value (a legal spelling of the same document)
+            if base == 0 || tier.thorough() {
+                let mut positions = vec![];
+                collect_positions(v, &mut vec![], &mut positions);
+                n_positions += positions.len();
+                for p in &positions {
+                    let is_stream_top = p.is_empty() && matches!(v, Val::Stream(..));
+                    if is_stream_top {
+                        continue;
+                    }
+                    for (tgt, name) in [(SELF_REF_OBJ, "self-referencing-object"), (CYCLE_A, "reference-cycle"), (*nr, "containing-object"), (EXTERNALISED, "externalised")] {
+                        if p.is_empty() && tgt == EXTERNALISED {
+                            continue;
+                        }
+                        if matches!(get_at(v, p), Some(Val::Stream(..))) {
+                            continue;
+                        }
+                        muts.push(Mutation { obj: *nr, path: p.clone(), new: Val::Ref(tgt, 0), label: format!("indirect:{}{}->{}", obj_kind(*nr), field_s(p), name) });
+                    }
                 }
             }
         }
@@ -432,7 +568,7 @@ pub fn run(tier: Tier, _seed: u64, tally: &mut Tally) -> CheckMeta {
     CheckMeta {
         prop: "C14",
         level: "fault_enumeration",
-        rule: format!("base documents {:?} (rich document + indirect /Length, functions of types 0/2/4, Separation/DeviceN/nested Indexed/ICC colour spaces, CCITT image, soft mask, embedded-files name tree, number tree with kids, field hierarchy); single faults: every one of {} reference occurrences re-pointed at every object of the document, an undefined number, 0 and a number beyond /Size, and every one of {} integer occurrences set to each of {{-1, 0, 1, 2, 3, 16, 2^31-1, 2^32-1, 2^64-1, -2^31, 65536}}; double faults: all pairs of re-wirings inside 9 structural fragments; {} special structures (/Prev loops, nesting 20..200000, object streams containing/extending themselves, xref stream /W /Index /Size and classic table boundary values, PostScript roll/index/copy operands). Every case x {{strict, tolerant}} x {{cached, uncached}} is walked completely (C01 walker incl. scan and function application) in a worker process: no panic, no crash (stack overflow, abort, OOM under a 3 GiB address-space limit), no call exceeding 10 s. Distinct by file hash x configuration.", &BASES[..nbases], n_ref_fields, n_int_fields, specials.len()),
+        rule: format!("base documents {:?} (rich document + indirect /Length, functions of types 0/2/4, Separation/DeviceN/nested Indexed/ICC colour spaces, CCITT image, soft mask, embedded-files name tree, number tree with kids, field hierarchy); single faults: every one of {} reference occurrences re-pointed at every object of the document, an undefined number, 0 and a number beyond /Size, and every one of {} integer occurrences set to each of {{-1, 0, 1, 2, 3, 16, 2^31-1, 2^32-1, 2^64-1, -2^31, 65536}}; indirection faults: every one of {} value positions (whole objects included) replaced by a reference to a self-referencing object, a two-object reference cycle, the containing object, or a new object holding the old value; double faults: all pairs of re-wirings inside 9 structural fragments; {} special structures (/Prev loops, nesting 20..200000, object streams containing/extending themselves, xref stream /W (full product over 7 widths) /Index /Size, 8-byte offsets near 2^64 with and without a prefix, object stream header numbers near 2^63, page-tree counts summing beyond 2^32, classic table boundary values, PostScript roll/index/copy operands). Every case x {{strict, tolerant}} x {{cached, uncached}} is walked completely (C01 walker incl. scan and function application) in a worker process: no panic, no crash (stack overflow, abort, OOM under a 3 GiB address-space limit), no call exceeding 10 s. Distinct by file hash x configuration.", &BASES[..nbases], n_ref_fields, n_int_fields, n_positions, specials.len()),
         assumptions: vec!["time and memory proportionality is decided only against fixed generous thresholds (10 s, 3 GiB) - three orders of magnitude above the normal cost of these ~10 KB documents".into()],
         exhaustive: true,
         bounds: json!({"faults": 2}),
@@ -493,9 +629,9 @@ pub fn replay(case: &Value, tally: &mut Tally) {
         let obj = m["obj"].as_u64()?;
         let want = m["path"].as_str()?;
         let v = &objs.iter().find(|(n, _)| *n == obj)?.1;
-        let (mut refs, mut ints) = (vec![], vec![]);
-        collect(v, &mut vec![], &mut refs, &mut ints);
-        let path = refs.into_iter().chain(ints).find(|p| path_s(p) == want)?;
+        let mut positions = vec![];
+        collect_positions(v, &mut vec![], &mut positions);
+        let path = positions.into_iter().find(|p| path_s(p) == want)?;
         let text = m["new"].as_str()?;
         let mut t = crate::refread::Tokenizer::new(text.as_bytes(), 0);
         let new = t.object(0).ok()?;
